@@ -42,6 +42,7 @@ struct Live {
 }
 
 struct World<'a> {
+    huge_cache: std::cell::RefCell<std::collections::HashMap<(usize, u32), Vec<u8>>>,
     /// the driver handles no local command at the moment (Step::Stall)
     stalled: bool,
     plan: &'a Plan,
@@ -130,6 +131,7 @@ impl<'a> World<'a> {
             .collect();
         let dists = keys.iter().map(|k| xor_distance(&peer_bytes, &k.bytes)).collect();
         World {
+            huge_cache: Default::default(),
             stalled: false,
             plan,
             rep: RunReport::default(),
@@ -163,7 +165,35 @@ impl<'a> World<'a> {
     }
 
     fn value_bytes(&self, key: usize, val: u32) -> Vec<u8> {
-        let p = payload(self.plan.node_key, key, val);
+        let mut p = payload(self.plan.node_key, key, val);
+        if self.plan.huge_key == Some(key) {
+            if let Some(v) = self.huge_cache.borrow().get(&(key, val)) {
+                return v.clone();
+            }
+            // a record value 1..15 bytes below the size limit: accepted by the store, its encrypted file is
+            // longer than the limit
+            let want = ant_networking::MAX_PACKET_SIZE - 1 - (val as usize % 15);
+            let overhead = try_serialize_record(&p, record_kind(self.keys[key].kind)).expect("serialize").len() - p.len();
+            let mut fill = p.len();
+            while p.len() + overhead + 8 < want {
+                let b = p[fill % 12 + (fill / 12) % 4];
+                // Vec<u8> is serialised as a msgpack array: one byte per element below 0x80
+                p.push(b.wrapping_add(fill as u8) & 0x7f);
+                fill += 1;
+            }
+            loop {
+                let v = try_serialize_record(&p, record_kind(self.keys[key].kind)).expect("serialize").to_vec();
+                if v.len() == want {
+                    self.huge_cache.borrow_mut().insert((key, val), v.clone());
+                    return v;
+                }
+                if v.len() < want {
+                    p.push(0x5a);
+                } else {
+                    p.pop();
+                }
+            }
+        }
         try_serialize_record(&p, record_kind(self.keys[key].kind))
             .expect("serialize")
             .to_vec()
@@ -812,13 +842,14 @@ impl<'a> World<'a> {
                 Err(_) => return,
             };
             let len = full.len();
-            let all = self.plan.probe_prefixes == u32::MAX;
+            // every-prefix enumeration is for ordinary record sizes; a multi-megabyte file is sampled
+            let all = self.plan.probe_prefixes == u32::MAX && len <= 64 * 1024;
             let prefixes: Vec<usize> = if all {
                 (0..len).collect()
             } else {
                 // deterministic sample: 0, 1, header boundary, middle, len-1 ...
                 let mut p = vec![0, 1, 3, len / 2, len.saturating_sub(16), len.saturating_sub(1)];
-                p.truncate(self.plan.probe_prefixes as usize);
+                p.truncate((self.plan.probe_prefixes as usize).min(6));
                 p.retain(|x| *x < len);
                 p.sort();
                 p.dedup();
@@ -906,6 +937,19 @@ impl<'a> World<'a> {
             }
             let got = self.get(key);
             let has = self.has(key);
+            if self.keys[key].gone_expected {
+                // "completed removals stay removed"
+                self.keys[key].gone_expected = false;
+                if got.is_some() || has {
+                    self.viol(
+                        "restart.removed_key_served",
+                        &[("probe", ctx.into())],
+                        format!("k{key} was removed (no background work of the key was left) but its file stayed on disk and the restarted node serves it again"),
+                    );
+                }
+                self.keys[key].file = FileState::Absent;
+                continue;
+            }
             match self.keys[key].file.clone() {
                 FileState::Complete(v) => {
                     let want = self.value_bytes(key, v);
@@ -1162,6 +1206,7 @@ impl<'a> World<'a> {
         match step {
             Step::Put { key, val } => {
                 let key = *key % self.plan.n_keys;
+                self.keys[key].gone_expected = false;
                 self.put(key, *val, false).await;
             }
             Step::Remove { key } => {
@@ -1179,6 +1224,11 @@ impl<'a> World<'a> {
                 self.indexed[key] = false;
                 self.rep.ops += 1;
                 self.rep.log(format!("remove k{key}"));
+                let on_disk = self.store_dir().join(hex::encode(&self.keys[key].bytes)).is_file();
+                if on_disk && self.keys[key].pending_writes.is_empty() && self.keys[key].pending_deletes == 0 {
+                    self.keys[key].gone_expected = true;
+                    self.rep.probe("remove_left_file_without_delete_task");
+                }
             }
             Step::Get { key } => {
                 let key = *key % self.plan.n_keys;
